@@ -71,15 +71,18 @@ CallConsistency ==
   /\ UNCHANGED <<P, doms, ne, upd, trig, bcst, yielded, best>>
 
 (* ---- one iteration of the bound-consistency loop ---- *)
+\* P.cfg.sched = 1: the "schedules" quantifier of C08 - ANY triggered propagator may be executed next (every
+\* wake-up order is explored); 0: the order of the code (lowest index first, the previous one last)
+Candidates == IF P.cfg.sched = 1 THEN {p \in 1..Len(trig) : trig[p]} ELSE {Pop(trig, prev)} \ {0}
 BCReturn ==
-  /\ pc = "bc" /\ Pop(trig, prev) = 0
+  /\ pc = "bc" /\ Candidates = {}
   /\ bcst' = IF IsPoint(Box) THEN 2 ELSE 1
   /\ pc' = ret
   /\ UNCHANGED <<P, doms, ne, upd, trig, prev, ret, stats, yielded, best, sh, g>>
 
 Filter ==
   /\ pc = "bc"
-  /\ LET r == Pop(trig, prev) IN
+  /\ \E r \in Candidates :
      /\ r # 0
      /\ LET c    == P.props[r]
             t1   == [trig EXCEPT ![r] = FALSE]
